@@ -216,3 +216,11 @@ fn('cubicbez.rs', 'impl CubicBez {', 'subdivide_3', 'CubicBez.subdivide_3', f'(s
 
 # ---------------------------------------------------------------- simplify.rs: the moment integrals of a cubic (C18)
 fn('simplify.rs', '', 'moment_integrals', 'momentIntegrals', f'(c : {C}) : K × K × K')
+
+# ---------------------------------------------------------------- offset.rs: the parallel curve of a cubic (C18, C04)
+CO = 'CubicOffset K'
+fn('offset.rs', 'impl CubicOffset {', 'new', 'CubicOffset.new', f'(c : {C}) (d : K) : {CO}')
+fn('offset.rs', 'impl CubicOffset {', 'eval_offset', 'CubicOffset.eval_offset', f'(self : {CO}) (t : K) : {V}')
+fn('offset.rs', 'impl CubicOffset {', 'eval', 'CubicOffset.eval', f'(self : {CO}) (t : K) : {P}')
+fn('offset.rs', 'impl CubicOffset {', 'cusp_sign', 'CubicOffset.cusp_sign', f'(self : {CO}) (t : K) : K')
+fn('offset.rs', 'impl CubicOffset {', 'eval_deriv', 'CubicOffset.eval_deriv', f'(self : {CO}) (t : K) : {V}')
